@@ -13,9 +13,9 @@ verus! {
 // lagging:  the consumer's newest change from a server is older than the supplier's oldest
 // advanced: (not lagging and) the supplier's newest is older than the consumer's oldest
 // need:     otherwise, the consumer's newest is older than the supplier's newest
-pub open spec fn lag(c: ReplCidRange, s: ReplCidRange) -> bool { c.ts_max.lt(s.ts_min) }
-pub open spec fn adv(c: ReplCidRange, s: ReplCidRange) -> bool { !lag(c, s) && s.ts_max.lt(c.ts_min) }
-pub open spec fn need(c: ReplCidRange, s: ReplCidRange) -> bool { !lag(c, s) && !adv(c,s) && c.ts_max.lt(s.ts_max) }
+pub open spec fn lag(c: ReplCidRange, s: ReplCidRange) -> bool { c.ts_max.dlt(s.ts_min) }
+pub open spec fn adv(c: ReplCidRange, s: ReplCidRange) -> bool { !lag(c, s) && s.ts_max.dlt(c.ts_min) }
+pub open spec fn need(c: ReplCidRange, s: ReplCidRange) -> bool { !lag(c, s) && !adv(c,s) && c.ts_max.dlt(s.ts_max) }
 pub open spec fn overlap(c: Map<Uuid, ReplCidRange>, s: Map<Uuid, ReplCidRange>) -> bool { exists|k: Uuid| s.contains_key(k) && c.contains_key(k) }
 pub open spec fn any_lag(c: Map<Uuid, ReplCidRange>, s: Map<Uuid, ReplCidRange>) -> bool { exists|k: Uuid| s.contains_key(k) && c.contains_key(k) && lag(c[k], s[k]) }
 pub open spec fn any_adv(c: Map<Uuid, ReplCidRange>, s: Map<Uuid, ReplCidRange>) -> bool { exists|k: Uuid| s.contains_key(k) && c.contains_key(k) && adv(c[k], s[k]) }
